@@ -33,6 +33,7 @@ type tierCfg struct {
 	MaxPaths int
 	Budget   int // seconds of exploration allowed for this harness (0 = default)
 	Preemptions int
+	Delays      int
 }
 
 type harnessCfg struct {
@@ -83,6 +84,8 @@ type replayFile struct {
 	Excuse  string `json:",omitempty"`
 	Bounds  map[string]int
 	Inputs  []interp.ReplayVal
+	Preemptions int `json:",omitempty"`
+	Delays      int `json:",omitempty"`
 	Expect  string // "fail" (counterexample) or "pass" (translator validation sample)
 }
 
@@ -273,6 +276,7 @@ func cmdCheck(args []string) int {
 			cfg.MaxPaths = *maxPaths
 		}
 		cfg.Preemptions = tc.Preemptions
+		cfg.Delays = tc.Delays
 		cfg.UnwindViolation = h.UnwindIsViolation
 		budget := tc.Budget
 		if budget == 0 {
@@ -354,7 +358,17 @@ func cmdCheck(args []string) int {
 		counter[rep.Name+kind]++
 		name := fmt.Sprintf("%s-%s-%d.json", rep.Name, kind, counter[rep.Name+kind])
 		p := filepath.Join(rdir, name)
-		rf := replayFile{Harness: rep.Name, Label: f.Label, Excuse: f.Excuse, Bounds: rep.Bounds, Inputs: f.Inputs, Expect: expect}
+		ins := f.Inputs
+		if !rep.Concrete {
+			// scheduling / map-order choices mean nothing to the native build
+			ins = nil
+			for _, v := range f.Inputs {
+				if v.Kind != "choice" {
+					ins = append(ins, v)
+				}
+			}
+		}
+		rf := replayFile{Harness: rep.Name, Label: f.Label, Excuse: f.Excuse, Bounds: rep.Bounds, Inputs: ins, Expect: expect, Preemptions: rep.Cfg.Preemptions, Delays: rep.Cfg.Delays}
 		b, _ := json.MarshalIndent(rf, "", " ")
 		os.WriteFile(p, b, 0o644)
 		return p
@@ -722,7 +736,7 @@ func cmdReplay(args []string) int {
 			fmt.Println("BROKEN:", err)
 			return 2
 		}
-		cfg := interp.Config{Harness: rf.Harness, Bounds: rf.Bounds, MaxSteps: 5000000, Workers: 1, SolverTimeout: 60000, MapOrder: hc.MapOrder, ReplayInputs: rf.Inputs}
+		cfg := interp.Config{Harness: rf.Harness, Bounds: rf.Bounds, MaxSteps: 5000000, Workers: 1, SolverTimeout: 60000, MapOrder: hc.MapOrder, ReplayInputs: rf.Inputs, Preemptions: rf.Preemptions, Delays: rf.Delays}
 		if cfg.ReplayInputs == nil {
 			cfg.ReplayInputs = []interp.ReplayVal{}
 		}
